@@ -38,7 +38,7 @@ static Ctx C;
    block takes more steps than a run has (that would be a slow run, not a lost byte) */
 static bool bigWritesAllowed() { return simdrv::knob(*C.spec, "cap", 1 << 20) >= 2048; }
 static void doWrite(int c, size_t n, const char* where) {
-  Cl& k = C.cl[c]; if (k.closed || !k.client || n == 0) return;
+  Cl& k = C.cl[c]; if (k.closed || !k.client || (n == 0 && k.backlog <= 0)) return;   /* an empty write is only issued while a backlog is pending (without one the unchanged library treats send()==0 as a closed connection: not judged) */
   static unsigned char buf[81920]; if (n > sizeof buf) n = sizeof buf;
   for (size_t i = 0; i < n; ++i) buf[i] = codeByte(c, k.accepted + i);
   usize postponed = 12345678;
@@ -123,7 +123,7 @@ struct DriverCb : public Server::Timer::ICallback {
       const Op& op = s.plan[C.pos++]; int c = (int)(op.a[0] % C.nc); Cl& k = C.cl[c];
       logEvent("script", op.code, c, op.a[1]);
       switch (op.code) {
-      case S_WRITE: doWrite(c, (op.a[2] % 8 == 7 && bigWritesAllowed()) ? (size_t)(16385 + op.a[1] % 60000) /* a block the socket layer may hand over in several pieces */ : (size_t)(1 + op.a[1] % 3000), "timer"); break;
+      case S_WRITE: doWrite(c, op.a[2] % 8 == 6 ? (probe("empty_write"), (size_t)0) : (op.a[2] % 8 == 7 && bigWritesAllowed()) ? (size_t)(16385 + op.a[1] % 60000) /* a block the socket layer may hand over in several pieces */ : (size_t)(1 + op.a[1] % 3000), "timer"); break;
       case S_SUSPEND: if (!k.closed) { k.client->suspend(); k.suspended = true; if (!k.client->isSuspended()) fail("C13/isSuspended_wrong", "isSuspended() false after suspend()"); } break;
       case S_RESUME: if (!k.closed) { k.suspended = false; k.client->resume(); } break;
       case S_READMODE: k.readMode = (int)(op.a[1] % 2); break;
